@@ -231,7 +231,18 @@ class P:
         if self.at("mut"):
             self.eat()
         if self.at("("):
-            raise Bad("tuple pattern in let")
+            # `let (a, _) = e;`
+            self.eat("(")
+            names = []
+            while not self.at(")"):
+                names.append(self.eat()[1])
+                if self.at(","):
+                    self.eat()
+            self.eat(")")
+            self.eat("=")
+            e = self.expr()
+            self.eat(";")
+            return ("lettuple", names, e)
         name = self.eat()[1]
         if self.at(":"):
             self.eat()
@@ -379,10 +390,28 @@ class P:
             if self.peek()[1] in (";", "}", ","):
                 return ("return", None)
             return ("return", self.expr())
-        if k == "id" and v in ("while", "loop", "for"):
+        if k == "id" and v == "for":
+            self.eat("for")
+            var = self.eat()[1]
+            self.eat("in")
+            it = self.expr(nostruct=True)
+            body = self.block()
+            return ("for", var, it, body)
+        if k == "id" and v in ("while", "loop"):
             raise Bad(f"loop construct `{v}`")
-        if k == "id" and v in ("move",) or (k == "op" and v in ("|", "||")):
-            raise Bad("closure")
+        if (k == "id" and v == "move") or (k == "op" and v == "|"):
+            if v == "move":
+                self.eat()
+            self.eat("|")
+            var = self.eat()[1]
+            if self.at(":"):
+                self.eat()
+                self.ty()
+            self.eat("|")
+            body = self.expr()
+            return ("closure", var, body)
+        if k == "op" and v == "||":
+            raise Bad("closure without parameters")
         if k == "id":
             path = [self.eat()[1]]
             while self.at("::"):
@@ -651,6 +680,11 @@ class Lower:
             return self.args(e[2], lambda as_: self.bindc(self.app(head, as_, wrap), k, ind), ind)
         if t == "mcall":
             recv, name, args = e[1], e[2], e[3]
+            if name == "for_each" and len(args) == 1 and args[0][0] == "closure":
+                cl = args[0]
+                cb = cl[2] if cl[2][0] == "block" else ("block", [("expr", cl[2])], None)
+                body = self.block(cb, lambda a: "Rt.pure ()", ind + 2)
+                return self.ex(recv, lambda it: self.bindc(f"{it}.rs_for_each (fun {ident(cl[1])} =>\n{'  ' * (ind + 2)}{body})", k, ind), ind)
             if self.is_self(recv):
                 head = f"Repr.{name}"
                 wrap = head in self.generated
@@ -682,6 +716,12 @@ class Lower:
             else:
                 name, args = "index", [idx]
             return self.ex(("mcall", recv, name, args), k, ind)
+        if t == "for":
+            # `for x in it { body }`  ==  `it.for_each(|x| body)`
+            body = self.block(e[3], lambda a: "Rt.pure ()", ind + 2)
+            return self.ex(e[2], lambda it: self.bindc(f"{it}.rs_for_each (fun {ident(e[1])} =>\n{'  ' * (ind + 2)}{body})", k, ind), ind)
+        if t == "closure":
+            raise Bad("closure outside for_each")
         if t == "block":
             return self.block(e, k, ind)
         if t == "if":
@@ -739,6 +779,9 @@ class Lower:
             if s[0] == "let":
                 v = ident(s[1])
                 return self.ex(s[2], lambda a: (f"Rt.bind (Rt.pure {a}) fun {v} =>\n{'  ' * ind}{go(i + 1)}"), ind)
+            if s[0] == "lettuple":
+                pat = "(" + ", ".join(ident(n) for n in s[1]) + ")"
+                return self.ex(s[2], lambda a: (f"Rt.bind (Rt.pure {a}) fun {pat} =>\n{'  ' * ind}{go(i + 1)}"), ind)
             if s[0] == "expr":
                 return self.ex(s[1], lambda a: go(i + 1), ind)
             if s[0] == "assign":
@@ -842,6 +885,10 @@ TARGETS = [
     ("lib.rs", "impl fmt::Write for LeanString", "write_str", "LeanString.write_str", True),
     ("lib.rs", "impl Add<&str> for LeanString", "add", "LeanString.add", True),
     ("lib.rs", "impl From<&str> for LeanString", "from", "LeanString.from_str_ref", True),
+    ("lib.rs", "impl Extend<char> for LeanString", "extend", "LeanString.extend_char", True),
+    ("lib.rs", "impl<'a> Extend<&'a str> for LeanString", "extend", "LeanString.extend_str", True),
+    ("lib.rs", "impl Extend<String> for LeanString", "extend", "LeanString.extend_string", True),
+    ("lib.rs", "impl Extend<Box<str>> for LeanString", "extend", "LeanString.extend_box", True),
 ]
 # expected Lean signatures (used for the stub of a poisoned function, and checked against the source)
 SIGS = {
@@ -871,6 +918,8 @@ SIGS = {
     "LeanString.insert_str": ([("idx", "Nat"), ("string", "Str")], "Unit"), "LeanString.truncate": ([("new_len", "Nat")], "Unit"),
     "LeanString.add_assign": ([("rhs", "Str")], "Unit"), "LeanString.write_str": ([("s", "Str")], "Rs Unit"),
     "LeanString.add": ([("rhs", "Str")], "Handle"), "LeanString.from_str_ref": ([("value", "Str")], "Handle"),
+    "LeanString.extend_char": ([("iter", "CharIter")], "Unit"), "LeanString.extend_str": ([("iter", "StrIter")], "Unit"),
+    "LeanString.extend_string": ([("iter", "StrIter")], "Unit"), "LeanString.extend_box": ([("iter", "StrIter")], "Unit"),
 }
 
 def pick64(variants):
@@ -889,8 +938,10 @@ def translate_one(srcs, cache, file, header, fn, lname, self_field, generated):
     at, params, ret, body = pick64(fns[fn])
     ps = split_params(params)
     lps = []
-    for n, t in ps:
+    for idx_, (n, t) in enumerate(ps):
         lt = lean_ty(t)
+        if lt is None and re.match(r"^[A-Z]$", t) and idx_ < len(SIGS[lname][0]):
+            lt = SIGS[lname][0][idx_][1]      # a generic `T: IntoIterator<Item = …>`: the iterator as data
         if lt is None:
             raise Bad(f"parameter type {t!r}")
         lps.append((ident(n), lt))
